@@ -375,3 +375,199 @@ def c11_cli(ctx, broken):
             "summary": {"evaluations": evals, "nontrivial": nontriv, "known_finding_hits": len(known_hits), "matrix": {"threads": threads_set, "reps": reps, "sample_counts": sample_counts},
                         "what": "build/align/map(aln,vcf)/distance/lo -r with skf and sequence-file input; identical output (tables and align columns up to order) vs the first single-threaded run; every command must succeed for every thread count"},
             "samples": samples}
+
+
+# ----------------------------------------------------------------------------- C09 / C19
+
+SYMS = "ACGT" * 6 + "-" * 4 + "RYSWKMBDHVN"
+
+
+def rand_table_text(rnd, k, nsamp, nrows, small_keys=False):
+    names = [f"s{i}" for i in range(nsamp)]
+    rows = {}
+    top = (1 << 64) if small_keys else 4 ** (k - 1)
+    top = min(top, 4 ** (k - 1))
+    for _ in range(nrows):
+        style = rnd.random()
+        if style < 0.2:
+            key = rnd.randrange(0, min(top, 1 << 16))
+        elif style < 0.3:
+            key = top - 1 - rnd.randrange(0, 5)
+        else:
+            key = rnd.randrange(0, top)
+        cells = [rnd.choice(SYMS) for _ in range(nsamp)]
+        if all(c == "-" for c in cells):
+            cells[0] = "A"
+        rows[key] = "".join(cells)
+    rows_s = ",".join(f"{k_}:{v}" for k_, v in rows.items()) if rows else "~"
+    return ",".join(names) + "|" + rows_s
+
+
+def kvs(line):
+    out = {}
+    for tok in line.split(" "):
+        if "=" in tok:
+            a, b = tok.split("=", 1)
+            out[a] = b
+    return out
+
+
+def c09_cli(ctx, broken):
+    rnd = random.Random(ctx.seed * 32452843 + 17)
+    per_k = 12 if ctx.tier == "thorough" else 2
+    evals = nontriv = 0
+    samples = []
+    cases = []
+    for k in range(5, 64, 2):
+        for w in ([64, 128] if k <= 31 else [128]):
+            for i in range(per_k):
+                nsamp = rnd.randint(1, 5)
+                nrows = rnd.choice([0, 1, 3, 20, 200 if ctx.tier == "thorough" else 40])
+                small = (k >= 33 and i % 2 == 0)
+                cases.append(f"skf w={w} k={k} rc={rnd.randint(0, 1)} table={rand_table_text(rnd, k, nsamp, nrows, small)}")
+    if ctx.tier == "thorough":
+        # thousands of k-mers (several compression frames)
+        for k, w in [(31, 64), (35, 128), (63, 128)]:
+            cases.append(f"skf w={w} k={k} rc=1 table={rand_table_text(rnd, k, 3, 6000)}")
+    impl = core.run_impl(ctx, cases, "c09")
+    mcases = ["skfdec " + r.split(" ")[0] for r in impl]
+    model = core.run_model(ctx, mcases)
+    for c, r, (m, _) in zip(cases, impl, model):
+        evals += 1
+        ri, mi = kvs(r), kvs(m)
+        ok = (ri.get("load64") == mi.get("load64") and ri.get("load128") == mi.get("load128")
+              and ri.get("any") == mi.get("any") and mi.get("reenc") == "1" and mi.get("rest") == "0")
+        # exactly the width the file was written with must load
+        w = kvs(c)["w"]
+        ok = ok and ri.get("load64") == ("1" if w == "64" else "0") and ri.get("load128") == ("1" if w == "128" else "0")
+        ok = ok and ri.get("any", "").startswith(w + "|")
+        if "rows=~" not in ri.get("any", ""):
+            nontriv += 1
+        if len(samples) < 2 and len(c) < 300:
+            samples.append({"case": c, "cbor_bytes": len(ri.get("hex", "")) // 2})
+        if not ok:
+            return {"summary": {"evaluations": evals, "nontrivial": nontriv},
+                    "violation": {"kind": "c09-roundtrip", "case": c, "impl": {k: v[:300] for k, v in ri.items()}, "model": {k: v[:300] for k, v in mi.items()}}}
+    # CLI: width independence for k = 35 files whose k-mers all fit in 64 bits; merge in both orders
+    for it in range(6 if ctx.tier == "thorough" else 2):
+        k = rnd.choice([33, 35, 41])
+        d = fresh_dir(ctx, "c09cli")
+        lowA = "A" * (k + 10) + rand_genome(rnd, 5) + "A" * 3          # every k-mer starts with many A's
+        normal = rand_genome(rnd, 3 * k)
+        write_fasta(os.path.join(d, "low.fa"), [lowA])
+        write_fasta(os.path.join(d, "norm.fa"), [normal, lowA[:k + 12]])
+        results = {}
+        for name in ("low", "norm"):
+            code, out, err = ska(["build", "-o", os.path.join(d, name), "-k", str(k), os.path.join(d, name + ".fa")], d)
+            evals += 1
+            if code != 0:
+                return {"summary": {"evaluations": evals, "nontrivial": nontriv}, "violation": {"kind": "c09-cli", "what": "build failed", "stderr": err[-300:], "k": k}}
+        for order in (("low", "norm"), ("norm", "low")):
+            code, out, err = ska(["merge", os.path.join(d, order[0] + ".skf"), os.path.join(d, order[1] + ".skf"), "-o", os.path.join(d, "m_" + order[0])], d)
+            evals += 1
+            if code != 0:
+                return {"summary": {"evaluations": evals, "nontrivial": nontriv},
+                        "violation": {"kind": "c09-cli", "what": f"merge {order} failed", "stderr": err[-300:], "k": k, "low": lowA, "normal": normal}}
+            code, out, err = ska(["nk", "--full-info", os.path.join(d, "m_" + order[0] + ".skf")], d)
+            info = parse_nk(out)
+            results[order] = {key: (cells if order[0] == "low" else cells[::-1]) for key, cells in info["rows"].items()}
+        if results[("low", "norm")] != results[("norm", "low")]:
+            return {"summary": {"evaluations": evals, "nontrivial": nontriv}, "violation": {"kind": "c09-cli", "what": "merge order changes the table", "k": k, "low": lowA, "normal": normal}}
+        for args in (["map", os.path.join(d, "norm.fa"), os.path.join(d, "low.skf")],
+                     ["weed", os.path.join(d, "low.skf"), os.path.join(d, "norm.fa"), "-o", os.path.join(d, "w.skf"), "--min-freq", "0"],
+                     ["nk", os.path.join(d, "low.skf")], ["distance", os.path.join(d, "m_low.skf")], ["align", os.path.join(d, "m_low.skf")]):
+            code, out, err = ska(args, d)
+            evals += 1
+            if code != 0:
+                return {"summary": {"evaluations": evals, "nontrivial": nontriv},
+                        "violation": {"kind": "c09-cli", "what": f"{args[0]} failed on a k={k} file whose k-mers fit in 64 bits", "stderr": err[-300:], "low": lowA, "normal": normal, "k": k}}
+        nontriv += 1
+    return {"summary": {"evaluations": evals, "nontrivial": nontriv,
+                        "what": "save -> raw CBOR bytes decoded and re-encoded by the model byte for byte, width acceptance (u64/u128) and dispatch vs model, all 30 k x both widths incl. k>=33 files whose k-mers fit in 64 bits; CLI merge in both orders, map/weed/nk/distance/align on such files"},
+            "samples": samples}
+
+
+def c19_cli(ctx, broken):
+    rnd = random.Random(ctx.seed * 49979687 + 29)
+    thorough = ctx.tier == "thorough"
+    files = [(64, 31, 3, 25, 1), (128, 41, 2, 15, 1)]
+    if thorough:
+        files += [(64, 7, 4, 60, 1), (128, 63, 3, 40, 1), (64, 31, 3, 4500, 9)]   # the last one spans several frames
+    evals = nontriv = 0
+    samples = []
+    for (w, k, nsamp, nrows, stride) in files:
+        case = f"skfaults w={w} k={k} rc=1 stride={stride} table={rand_table_text(rnd, k, nsamp, nrows)}"
+        r = core.run_impl(ctx, [case], "c19")[0]
+        ri = kvs(r)
+        nf = int(ri["rejected"]) + int(ri["same"]) + int(ri["different"])
+        evals += nf
+        nontriv += nf
+        if int(ri["different"]) != 0:
+            return {"summary": {"evaluations": evals, "nontrivial": nontriv},
+                    "violation": {"kind": "c19-faults", "what": "a damaged file was accepted with different content", "faults": ri["diffs"], "case": case[:2000]}}
+        # model cross-check of the frame layer on a subset of the faults
+        frames = ri["frames"].split(",")
+        step = max(1, len(frames) // (4000 if thorough else 700))
+        subset = frames[::step]
+        tags = [f.split(":")[0] for f in subset]
+        mline = f"unframe hex={ri['file']} faults={','.join(tags)}"
+        m, _ = core.run_model(ctx, [mline])[0]
+        if m != ",".join(subset):
+            ms = m.split(",")
+            bad = [(a, b) for a, b in zip(subset, ms) if a != b][:5]
+            return {"summary": {"evaluations": evals, "nontrivial": nontriv},
+                    "violation": {"kind": "c19-frame-model", "what": "frame decoder model and snap disagree", "examples": bad, "case": case[:2000]},
+                    "no_input": True}
+        samples.append({"file_bytes": int(ri["len"]), "faults": nf, "rejected": int(ri["rejected"]), "accepted_same": int(ri["same"]),
+                        "model_cross_checked": len(subset), "w": w, "k": k})
+    # CLI: a damaged copy must be rejected by every subcommand or give the same output
+    d = fresh_dir(ctx, "c19cli")
+    k = 17
+    base = rand_genome(rnd, 300)
+    fas = []
+    for i in range(3):
+        f = os.path.join(d, f"s{i}.fa")
+        write_fasta(f, [mutate(rnd, base, 3)])
+        fas.append(f)
+    write_fasta(os.path.join(d, "ref.fa"), [base])
+    ska(["build", "-o", os.path.join(d, "good"), "-k", str(k)] + fas, d)
+    good = open(os.path.join(d, "good.skf"), "rb").read()
+    cmds = {
+        "nk": lambda p: ["nk", "--full-info", p],
+        "align": lambda p: ["align", p, "--filter", "no-filter", "--min-freq", "0"],
+        "map": lambda p: ["map", os.path.join(d, "ref.fa"), p],
+        "distance": lambda p: ["distance", p],
+        "weed": lambda p: ["weed", p, os.path.join(d, "ref.fa"), "-o", os.path.join(d, "w.skf")],
+        "delete": lambda p: ["delete", "-s", p, "-o", os.path.join(d, "del"), "s0"],
+        "merge": lambda p: ["merge", p, os.path.join(d, "good.skf"), "-o", os.path.join(d, "mm")],
+        "lo": lambda p: ["lo", p, os.path.join(d, "lo")],
+    }
+    def sorted_rows(text):
+        return sorted(text.splitlines())
+    ref_out = {}
+    for name, mk in cmds.items():
+        code, out, err = ska(mk(os.path.join(d, "good.skf")), d)
+        ref_out[name] = (code, sorted_rows(out))
+    nfaults = 400 if thorough else 60
+    for fi in range(nfaults):
+        data = bytearray(good)
+        if fi % 3 == 0:
+            data = data[:rnd.randrange(len(good))]
+            what = f"truncate {len(data)}"
+        else:
+            pos = rnd.randrange(len(good))
+            bit = rnd.randrange(8)
+            data[pos] ^= 1 << bit
+            what = f"flip {pos}.{bit}"
+        bad = os.path.join(d, "bad.skf")
+        open(bad, "wb").write(bytes(data))
+        for name, mk in cmds.items():
+            code, out, err = ska(mk(bad), d)
+            evals += 1
+            if code == 0 and (name in ("nk", "align", "map", "distance")) and sorted_rows(out) != ref_out[name][1]:
+                return {"summary": {"evaluations": evals, "nontrivial": nontriv},
+                        "violation": {"kind": "c19-cli", "what": f"{name} accepted a damaged file with different output", "fault": what}}
+        nontriv += 1
+    return {"summary": {"evaluations": evals, "nontrivial": nontriv, "exhaustive": True,
+                        "what": "every truncation point and every single-bit flip of each file through the real loader (rejected or same content), frame-decoder model cross-checked against snap on a subset, random faults through every CLI subcommand"},
+            "samples": samples}
